@@ -19,7 +19,8 @@ Record run := mkRun {
 
 Record case := mkCase {
   c_id : N;
-  c_reach : bool;                   (* the initial state is one a kill during a first start can leave *)
+  c_reach : bool;                   (* the initial state is one a kill during a first start (of the code before or after
+                                       the repair) can leave; informational: every case is judged alike *)
   c_disk0 : disk;
   c_bad0 : list item;
   c_runs : list run
@@ -36,7 +37,7 @@ Definition kv_eqb (a b : kv) : bool := forallb (fun it => obytes_eqb (kv_get a i
 Definition disk_eqb (a b : disk) : bool :=
   obytes_eqb (d_token a) (d_token b) && obytes_eqb (d_tmp a) (d_tmp b) && kv_eqb (d_kv a) (d_kv b).
 
-(* ---- correspondence: the model of the code as it is, fed with the generator outputs
+(* ---- correspondence: the model of the code, fed with the generator outputs
    the implementation turned out to have used ---- *)
 Definition odefault (o : option bytes) : bytes := match o with Some b => b | None => [] end.
 Definition fresh_of (r : run) : fresh :=
@@ -46,26 +47,29 @@ Definition fresh_of (r : run) : fresh :=
 
 Definition history_of (rs : list run) : list (fresh * list svc) := map (fun r => (fresh_of r, r_cfg r)) rs.
 
-Fixpoint agrees (fixed : bool) (d : disk) (rs : list run) : bool :=
+Fixpoint agrees (d : disk) (rs : list run) : bool :=
   match rs with
   | [] => true
   | r :: rest =>
       let f := fresh_of r in
-      let d' := after fixed f d (r_cfg r) in
-      eqb_bytes (id_token (ident fixed f d (r_cfg r))) (r_token r)
+      let d' := after f d (r_cfg r) in
+      eqb_bytes (id_token (ident f d (r_cfg r))) (r_token r)
       && disk_eqb d' (r_disk r)
       && forallb (fun iv => obytes_eqb (kv_get (d_kv (r_disk r)) (fst iv)) (Some (snd iv)))
-                 (id_items (ident fixed f d (r_cfg r)))
-      && agrees fixed d' rest
+                 (id_items (ident f d (r_cfg r)))
+      (* a token the model generates is xid.New().String(): the observed one must have that shape *)
+      && (match fst (token_step d (r_token r)) with [] => true | _ => token_wf (r_token r) end)
+      && agrees d' rest
   end.
 
-Definition model_agrees := agrees repo_fixed.
+Definition model_agrees := agrees.
 
 Definition mismatches (cs : list case) : list N :=
   map c_id (filter (fun c => negb (model_agrees (c_disk0 c) (c_runs c))) cs).
 
 (* ---- the property, judged on the observations alone ---- *)
-Definition SIG_TOKEN_MALFORMED := 1%N.     (* a start after an interrupted start uses a token that is not a well-formed id *)
+Definition SIG_TOKEN_MALFORMED := 1%N.     (* a start (after an interrupted start, on a legacy empty/cut-short token file, ...) uses a
+                                              token that is not a well-formed id *)
 Definition SIG_TOKEN_CHANGED := 2%N.       (* the token differs between starts (or between events of one start) *)
 Definition SIG_TOKEN_NOT_PERSISTED := 3%N. (* the token in use is not what the token file holds afterwards *)
 Definition SIG_ITEM_CHANGED := 4%N.        (* a stored or client-visible key/certificate changed or disappeared *)
@@ -136,7 +140,7 @@ Definition presented (r : run) : bool :=
 
 Definition case_sigs (c : case) : list N :=
   let rs := c_runs c in
-  (if c_reach c && negb (tokens_wf rs) then [SIG_TOKEN_MALFORMED] else [])
+  (if tokens_wf rs then [] else [SIG_TOKEN_MALFORMED])
   ++ (if tokens_same rs then [] else [SIG_TOKEN_CHANGED])
   ++ (if tokens_persisted rs then [] else [SIG_TOKEN_NOT_PERSISTED])
   ++ (if kv_monotone (d_kv (c_disk0 c)) (map (fun r => d_kv (r_disk r)) rs) && shown_stable [] rs
